@@ -229,7 +229,11 @@ func (x *Exec) Verify() {
 	p.oldSnap = p.snap()
 	if fc != nil {
 		for _, h := range fc.Holds {
-			x.assumeHeld(p, h)
+			mode := "w"
+			if fc.HoldsRead[h] {
+				mode = "r"
+			}
+			x.assumeHeld(p, h, mode)
 		}
 		for _, c := range fc.Assumes {
 			if c.Src == "clock_stable" {
